@@ -400,3 +400,23 @@ def prime(classes=None):
     for c in classes:
         c._regex = DNARegex(c.structure())
     return classes
+
+
+def degenerate_records(enz, far_words=None):
+    """A/T-only plasmids for an enzyme with a degenerate site: [(kind, near expansion, far word, string)].
+    far_words=None -> the reverse complements of the first/last expansion (well-formed records)."""
+    import itertools
+    g = geometry_of(enzyme(enz))
+    exps = ["".join(t) for t in itertools.product(*[rm.IUPAC[c] for c in g.site])]
+    at = "ATTATAATATTTAATTAAATATAT"
+    x, y = at[: g.off], at[3: 3 + g.off]
+    o5 = ("ATTA" * 2)[: g.ov]
+    o3 = ("TAAT" * 2)[: g.ov]
+    body, bb, ph = "TATTA", "AATAT", "TTAAT"
+    out = []
+    for near in (exps[0], exps[-1]):
+        fw = far_words if far_words is not None else [rm.revcomp(exps[0]), rm.revcomp(exps[-1])]
+        for w in fw:
+            out.append(("module", near, w, near + x + o5 + body + o3 + y + w + bb))
+            out.append(("vector", near, w, o3 + bb + o5 + y + w + ph + near + x))
+    return out
